@@ -56,6 +56,10 @@ type options struct {
 
 	activeFields *fieldSet
 
+	// state of the dynamic values being evaluated in the current call, shared
+	// by all copies of the options made during the call
+	eval *evalState
+
 	ignoreCommas bool
 }
 
@@ -74,6 +78,38 @@ type cacheID string
 type spliceValue struct {
 	err   error
 	value value
+
+	// references resolved while computing value. The cached value is valid in
+	// every context none of them is active in (see cfgDynamic.getValue).
+	deps []string
+}
+
+// evalState tracks what the evaluation of dynamic values depends on.
+type evalState struct {
+	// number of cyclic references detected so far
+	cycles int
+
+	// names of the references resolved by the dynamic values currently being
+	// evaluated, one list per nesting level
+	resolved [][]string
+}
+
+func (s *evalState) push() {
+	s.resolved = append(s.resolved, nil)
+}
+
+func (s *evalState) pop() []string {
+	last := len(s.resolved) - 1
+	deps := s.resolved[last]
+	s.resolved = s.resolved[:last]
+	s.add(deps...) // the enclosing value depends on them as well
+	return deps
+}
+
+func (s *evalState) add(names ...string) {
+	if last := len(s.resolved) - 1; last >= 0 {
+		s.resolved[last] = append(s.resolved[last], names...)
+	}
 }
 
 // StructTag option sets the struct tag name to use for looking up
@@ -278,6 +314,7 @@ func makeOptions(opts []Option) *options {
 		parsed:       map[string]spliceValue{},
 		activeFields: newFieldSet(nil),
 		maxIdx:       defaultMaxIdx,
+		eval:         &evalState{},
 	}
 	for _, opt := range opts {
 		opt(&o)
@@ -300,7 +337,7 @@ func (cache valueCache) cachedValue(
 
 	// Only primitives can be cached, allowing us to get out of infinite loop
 	if v != nil && v.canCache() {
-		cache[string(id)] = spliceValue{err, v}
+		cache[string(id)] = spliceValue{err: err, value: v}
 	}
 	return v, err
 }
